@@ -638,8 +638,8 @@ def tokenizer(cx):
           detail='%d returns' % len(rets), key='returns')
     raises = fn.stmts(ast.Raise)
     types = sorted(raised_types(raises))
-    ok = types == ['ValueError'] and len(raises) >= 7
-    fn.ob('EXITS', 'every failure exit raises ValueError (>= 7 sites)', ok, raises[0] if raises else fn.ast,
+    ok = types == ['ValueError'] and len(raises) >= 6       # (7 in the source; two with one message are one in canonical form)
+    fn.ob('EXITS', 'every failure exit raises ValueError (>= 6 sites)', ok, raises[0] if raises else fn.ast,
           detail='%d raise sites of %s' % (len(raises), types), key='raises')
     tr = fn.stmts(ast.Try)
     fn.ob('EXITS', 'no handler inside the tokenizer swallows an error', not tr, tr[0] if tr else fn.ast, key='no-try')
@@ -658,10 +658,11 @@ def tokenizer(cx):
         one0 = [st for st in fn.stmts(ast.If) if sym.norm(st.test) == sym.norm('%s == 1' % ne[1])]
         ok = len(one0) == 1
         if ok:
+            # whatever is not the opening delimiter ends in a refusal: everything behind `if n == 1: break` (as an else chain or
+            # as the statements that follow it) always raises
             blk, i = block_of(fn, one0[0])
-            links, els = if_chain(blk, i)
-            tests = [sym.norm(t) for t, b, s_ in links]
-            ok = tests == [sym.norm('%s == 1' % ne[1]), sym.norm('%s %% 2 == 0' % ne[1])] and always_raises(links[1][1]) and always_raises(els)
+            rest = one0[0].orelse if one0[0].orelse else blk[i + 1:]
+            ok = always_raises(rest) and len(one0[0].body) == 1 and isinstance(one0[0].body[0], ast.Break)
         fn.ob('EXITS', 'a keyword starting with the delimiter is refused for even and odd runs alike', ok, one0[0] if one0 else fn.ast,
               key='leading-run')
         one = [st for st in fn.stmts(ast.If) if sym.norm(st.test) == sym.norm('%s == 1' % ne[1])]
